@@ -1767,10 +1767,12 @@ def expand_grapheme(st, g, checks, minrep, minlen, depth=0):
 
 
 @guarded
-def q05r(ctx, n=4, clause='notation', letters=False, tokens=False):
+def q05r(ctx, n=4, clause='notation', letters=False, tokens=False, template=None):
     """Q05r/Q13r: GraphemeCluster::convert_repetitions is a notation change (Q05r) that honours both thresholds (Q13r)"""
     name = {'notation': 'Q05r', 'thresholds': 'Q13r'}[clause]
-    ob = Obligation('%s[n=%d]%s%s' % (name, n, '[tokens]' if tokens else '', '[letters]' if letters else ''),
+    if template:
+        n = len(template)
+    ob = Obligation('%s[n=%d]%s%s%s' % (name, n, '[tokens]' if tokens else '', '[letters]' if letters else '', '[template=%s]' % template if template else ''),
                     {'notation': 'Q05r: expanding every {k} unit of the converted cluster (and its nested rendering) gives back the original grapheme sequence',
                      'thresholds': 'Q13r: every quantified unit of the converted cluster, at any nesting depth, has a count > minimum_repetitions and spans >= minimum_substring_length graphemes'}[clause])
     ob.domain = ('a cluster of %d graphemes, each %s (all equality patterns); minimum_repetitions and '
@@ -1780,6 +1782,16 @@ def q05r(ctx, n=4, clause='notation', letters=False, tokens=False):
     ob.bound = 'clusters of exactly %d graphemes, one code point each' % n
     cs = [z3.BitVec('g%d' % i, 32) for i in range(n)]
     assume = [valid_char(c) for c in cs]
+    if template:
+        # a longer cluster with a fixed equality pattern: equal letters of the template are the same (symbolic) letter, different letters differ
+        first = {}
+        for i_, ch in enumerate(template):
+            if ch in first:
+                assume.append(cs[i_] == cs[first[ch]])
+            else:
+                assume += [cs[i_] != cs[j_] for j_ in first.values()]
+                first[ch] = i_
+        assume += [z3.And(z3.UGE(c, BV(0x61, 32)), z3.ULE(c, BV(0x7A, 32))) for c in cs]
     if letters:
         assume += [z3.And(z3.UGE(c, BV(0x61, 32)), z3.ULE(c, BV(0x7A, 32))) for c in cs]
     if tokens:
@@ -2647,6 +2659,7 @@ class PatternParser:
         self.ex, self.st, self.items, self.i, self.oracle = ex, st, list(items), 0, oracle
         self.surrogates = surrogates      # re-pair \u{d8xx}\u{dcxx} escapes into one code point (output of the surrogate option)
         self.side = []                    # conditions under which the BARE symbolic characters met so far are literals for the regex crate
+        self.lazy = False                 # a lazy quantifier was seen (irrelevant for the language, relevant for search order)
 
     def peek(self):
         return concrete(self.items[self.i]) if self.i < len(self.items) else None
@@ -2687,10 +2700,17 @@ class PatternParser:
             words = [w + x for w in words for x in a]
         return words
 
+    def lazy_mark(self):
+        # a '?' directly after a quantifier makes it lazy: same language, other preference order
+        if self.at('?'):
+            self.i += 1
+            self.lazy = True
+
     def quantified(self):
         a = self.atom()
         if self.at('?'):
             self.i += 1
+            self.lazy_mark()
             return a + [[]]
         if self.at('*') or self.at('+'):
             raise InfiniteLanguage('unbounded quantifier in the printed pattern')
@@ -2702,6 +2722,7 @@ class PatternParser:
                 j += 1
             if j < len(self.items) and concrete(self.items[j]) == ord('}') and txt:
                 self.i = j + 1
+                self.lazy_mark()
                 lo, hi = (int(txt), int(txt)) if ',' not in txt else tuple(int(x) for x in txt.split(','))
                 out = []
                 for k in range(lo, hi + 1):
@@ -3544,7 +3565,8 @@ def q03t(ctx, lens=(2,), flagset=('digits',), domain='printable'):
     ob = Obligation('Q03t[%s][%s]%s' % (','.join(map(str, lens)), ','.join(k for k in order if k in flagset), '' if domain == 'printable' else '[%s]' % domain),
                     q03t.__doc__)
     dom_txt = {'printable': 'printable ASCII characters (U+0020..U+007E: digits, letters, blanks, punctuation, every regex metacharacter)',
-               'alnum': 'characters from 0-9, a-z, the blank and the underscore'}[domain]
+               'alnum': 'characters from 0-9, a-z, the blank and the underscore',
+               'alnum-bs': 'characters from 0-9, A-Z, a-z, underscore and the backslash (so that a test case can spell a class token such as \\\\d literally)'}[domain]
     ob.domain = ('%d test cases of %s %s, conversions: %s; the candidate string x ranges over ALL scalar values at every position' % (
         len(lens), '/'.join(map(str, lens)), dom_txt, ', '.join(k for k in order if k in flagset)))
     ob.bound = 'exactly these lengths'
@@ -3552,6 +3574,10 @@ def q03t(ctx, lens=(2,), flagset=('digits',), domain='printable'):
     allv = [v for c in cases for v in c]
     if domain == 'printable':
         assume = [z3.And(z3.UGE(v, BV(0x20, 32)), z3.ULE(v, BV(0x7E, 32))) for v in allv]
+    elif domain == 'alnum-bs':
+        assume = [z3.And(z3.UGE(v, BV(0x30, 32)), z3.ULE(v, BV(0x7A, 32))) for v in allv]
+        assume += [z3.Or(v == BV(0x5C, 32), v == BV(0x5F, 32), z3.ULE(v, BV(0x39, 32)), z3.And(z3.UGE(v, BV(0x41, 32)), z3.ULE(v, BV(0x5A, 32))),
+                         z3.UGE(v, BV(0x61, 32))) for v in allv]
     else:
         assume = [z3.And(z3.UGE(v, BV(0x20, 32)), z3.ULE(v, BV(0x7A, 32))) for v in allv]
         assume += [z3.Or(v == BV(0x20, 32), v == BV(0x5F, 32), z3.And(z3.UGE(v, BV(0x30, 32)), z3.ULE(v, BV(0x39, 32))),
@@ -4505,4 +4531,57 @@ def q05n(ctx, template='xxbxxbdxxbxxbd', escape=False):
     ob.verdict = decide(ob.qid, assume + ob.defs, z3.Or(*bads) if bads else z3.BoolVal(False), [x], all_sat=True, max_models=ctx.cap('Q05n'),
                         second=ctx.second, workdir=ctx.workdir, second_timeout_s=getattr(ctx, 'second_timeout', 60))
     ob.extra['template'] = template
+    return ob
+
+
+# =========================================================================== Q05o  an optional part that is itself one quantified unit
+@guarded
+def q05o(ctx, n=2, count=2):
+    """Q05o: Display for Repetition(Literal(one grapheme u{k}), ?) denotes exactly {empty, u^k}: the optional group survives (u{k}? would be a lazy quantifier)"""
+    ob = Obligation('Q05o[n=%d,count=%d]' % (n, count), q05o.__doc__)
+    ob.domain = 'unit u of %d letters a..z (every equality pattern), repeat count %d; capturing groups symbolic, verbose and highlighting off' % (n, count)
+    ob.bound = 'units of exactly %d letters' % n
+    cs = [z3.BitVec('c%d' % i, 32) for i in range(n)]
+    assume = [z3.And(z3.UGE(c, BV(0x61, 32)), z3.ULE(c, BV(0x7A, 32))) for c in cs]
+    if n > 1:
+        assume.append(z3.Or(*[c != cs[0] for c in cs[1:]]))     # a unit of one repeated letter would itself have been converted (xx){2} -> x{4}
+    variants = ctx.mir.enums.get('Expression')
+    qvars = ctx.mir.enums.get('Quantifier')
+    fn = display_fmt_name(ctx, 'Expression')
+    ex = ctx.new_exec()
+    st = State(pc=list(assume))
+    cfgv = config_value(ctx, {'is_output_colorized': z3.BoolVal(False), 'is_verbose_mode_enabled': z3.BoolVal(False), 'is_non_ascii_char_escaped': z3.BoolVal(False),
+                              'is_astral_code_point_converted_to_surrogate': z3.BoolVal(False)})
+    cfg = st.ref(cfgv)
+    cap = cfgv.get('is_capturing_group_enabled')
+    g = grapheme_value(ctx, st, [[c] for c in cs], count, count, (cap, z3.BoolVal(False), z3.BoolVal(False)))
+    lit_ = EnumV('Expression', 'Literal', variants.index('Literal'), (cluster_value(ctx, st, [g], cfg), z3.BoolVal(False), z3.BoolVal(False)))
+    ast = EnumV('Expression', 'Repetition', variants.index('Repetition'),
+                (st.ref(lit_), EnumV('Quantifier', 'QuestionMark', qvars.index('QuestionMark'), ()), cap, z3.BoolVal(False), z3.BoolVal(False)))
+    buf = st.ref(SymStr(()))
+    t0 = time.time()
+    bads = []
+    npaths = 0
+    want = [[], [c for _ in range(count) for c in cs]]
+    for o in ex.run_fn(st, fn, [st.ref(ast), buf]):
+        npaths += 1
+        if o.panic:
+            bads.append(z3.And(*o.st.pc))
+            continue
+        items = list(o.st.load(buf).items)
+        cls = ''.join(chr(concrete(i_)) if concrete(i_) is not None else 'x' for i_ in items)
+        ob.classes_seen[cls] = ob.classes_seen.get(cls, 0) + 1
+        P_ = PatternParser(ex, o.st, items, ctx.oracle)
+        try:
+            words = P_.alternation()
+            if P_.i != len(items):
+                raise Inconclusive('pattern text not fully parsed at position %d' % P_.i)
+        except InfiniteLanguage:
+            bads.append(z3.And(*o.st.pc))
+            continue
+        bads.append(z3.And(*o.st.pc, z3.Not(set_eq(want, words))))
+    ctx.finish(ob, ex, t0)
+    ob.paths = npaths
+    ob.verdict = decide(ob.qid, assume + ob.defs, z3.Or(*bads) if bads else z3.BoolVal(False), cs + [z3.Bool('cfg_is_capturing_group_enabled')], all_sat=True,
+                        max_models=ctx.cap('Q05o'), second=ctx.second, workdir=ctx.workdir, second_timeout_s=getattr(ctx, 'second_timeout', 60), block_vars=cs)
     return ob
